@@ -14,7 +14,7 @@ func verifSpare(label string, maxItems int) system.Collection {
 	k := verifrt.Choose(label+".spare", verifrt.Bound(2, 3))
 	c := make(system.Collection, 0, n+k)
 	for i := 0; i < n; i++ {
-		switch verifrt.Choose(label+".kind", verifrt.Bound(2, 3)) {
+		switch verifrt.Choose(label+".kind", verifrt.Bound(1, 3)) {
 		case 0:
 			c = append(c, system.Integer(verifrt.NondetIntRange(label+".i", 0, 2)))
 		case 2:
@@ -39,12 +39,15 @@ func VerifHarness_C03_FunctionsDoNotMutate() {
 	verifrt.Assume(fn.MinArity <= n && n <= fn.MaxArity)
 	// the numeric functions read one scalar and build a fresh result (float paths are slow to decide): thorough only
 	verifrt.Assume(verifrt.Thorough() || verifKind(name) != "number")
-	input := verifSpare("in", verifrt.Bound(1, 2))
+	input := verifSpare("in", verifrt.Bound(2, 3))
 	envV := verifSpare("v", verifrt.Bound(1, 2))
 	ctx := &expr.Context{ExternalConstants: map[string]any{"v": envV, "e": system.Collection{}}}
 	var args []expr.Expression
 	for i := 0; i < n; i++ {
-		switch verifrt.Choose("arg", 4) {
+		switch verifrt.Choose("arg", 5) {
+		case 4: // a criterion whose value differs from item to item
+			args = append(args, &verifStub{r: []system.Collection{
+				{system.Boolean(verifrt.NondetBool("crit0"))}, {system.Boolean(verifrt.NondetBool("crit1"))}, {system.Boolean(verifrt.NondetBool("crit2"))}}})
 		case 0:
 			args = append(args, &expr.IdentityExpression{})
 		case 1:
